@@ -245,7 +245,8 @@ class Action:
         if "Action" in event.name and event.action_uid == self.uid:
             if "ActionStarted" in event.name:
                 self.context.update(event.arguments)
-                self.status = ActionStatus.STARTED
+                if self.status != ActionStatus.STOPPING:
+                    self.status = ActionStatus.STARTED
             elif "ActionUpdated" in event.name:
                 self.context.update(event.arguments)
             elif "ActionFinished" in event.name:
